@@ -580,6 +580,80 @@ def vint_vector_values(t, thorough=False):
     return out
 
 
+# ------------------------------------------------------------------------------- width-field layer (C01)
+# Boundary sizes of the 16-bit width fields of the protocol v1/v2 collection layout (element count,
+# element length, map key length, map value length): the largest size whose width has bit 15 clear,
+# the first with bit 15 set, the largest that fits and the first that does not fit.  The 32-bit width
+# fields of v3+ have their sign boundary at 2 GiB, which is out of reach.
+WIDTH16_EDGES = (32767, 32768, 65535, 65536)
+WIDTH16_MAX = 65535
+
+# element kinds with a value of every serialized size (see sized_element); the composite ones are
+# encoded with the v3 layout wherever they stand, so their size is the same at every version
+WIDTH_SCALAR_KINDS = ((('text',), 0), (('text',), 1), (('ascii',), 0), (('varchar',), 0), (('blob',), 0))
+WIDTH_COMPOSITE_KINDS = (('tuple', ('blob',)), ('list', ('blob',)), ('map', ('int',), ('blob',)),
+                         udt('tz', (('a', ('blob',)), ('b', ('int',)))), ('vector', ('blob',), 1))
+
+
+def width_length_cases():
+    """[(type, value, what, size, largest width field of the v1/v2 layout)]: top-level lists, sets and
+    maps with one element / key / value whose serialized form is exactly `size` bytes (size over WIDTH16_EDGES), alone and between ordinary
+    elements; maps also with a boundary-sized key and a boundary-sized value in one entry."""
+    out = []
+    for i, size in enumerate(WIDTH16_EDGES):
+        other = WIDTH16_EDGES[(i + 1) % len(WIDTH16_EDGES)]
+        for e, var in WIDTH_SCALAR_KINDS:
+            x, y = sized_element(e, size, var), sized_element(e, other, var)
+            a, b = pair(e)
+            tag = '%s%s' % (e[0], '/2-byte-chars' if var else '')
+            out.append((('list', e), [x], 'list element length, ' + tag, size, size))
+            out.append((('list', e), [a, x, b], 'list element length, ' + tag, size, size))
+            out.append((('list', e), [x, x], 'list element length, ' + tag, size, size))
+            out.append((('set', e), [x], 'set element length, ' + tag, size, size))
+            out.append((('set', e), [a, x], 'set element length, ' + tag, size, size))
+            out.append((('map', e, ('int',)), [(x, 1)], 'map key length, ' + tag, size, size))
+            out.append((('map', e, ('int',)), [(a, 1), (x, 2)], 'map key length, ' + tag, size, size))
+            out.append((('map', ('int',), e), [(1, x)], 'map value length, ' + tag, size, size))
+            out.append((('map', ('int',), e), [(1, a), (2, x), (3, b)], 'map value length, ' + tag, size, size))
+            out.append((('map', e, e), [(x, y)], 'map key and value length, ' + tag, size, max(size, other)))
+        for e in WIDTH_COMPOSITE_KINDS:
+            x = sized_element(e, size)
+            a = pair(e)[0]
+            out.append((('list', e), [x], 'list element length, ' + e[0], size, size))
+            out.append((('list', e), [a, x, a], 'list element length, ' + e[0], size, size))
+            out.append((('map', ('int',), e), [(1, x)], 'map value length, ' + e[0], size, size))
+            out.append((('map', ('int',), e), [(1, a), (2, x)], 'map value length, ' + e[0], size, size))
+    return out
+
+
+def width_count_cases(thorough=False):
+    """[(type, value, what, size, largest width field of the v1/v2 layout)]: top-level lists, sets and
+    maps with `size` elements (size over WIDTH16_EDGES) of a 1-byte type (lists, map values), of a
+    0..1-byte text, or of distinct 2-byte integers (set members, map keys); thorough: also booleans
+    and 4-byte members / keys."""
+    out = []
+    for n in WIDTH16_EDGES:
+        out.append((('list', ('tinyint',)), [(i % 256) - 128 for i in range(n)], 'list element count', n, n))
+        out.append((('list', ('text',)), [u'x' if i % 2 else u'' for i in range(n)], 'list element count', n, n))
+        out.append((('set', ('smallint',)), [i - 32768 for i in range(n)], 'set element count', n, n))
+        out.append((('map', ('smallint',), ('tinyint',)), [(i - 32768, (i % 256) - 128) for i in range(n)], 'map entry count', n, n))
+        if thorough:
+            out.append((('list', ('boolean',)), [i % 3 == 0 for i in range(n)], 'list element count', n, n))
+            out.append((('set', ('int',)), [i * 65537 - 2 ** 31 for i in range(n)], 'set element count', n, n))
+            out.append((('map', ('int',), ('boolean',)), [(i * 65537 - 2 ** 31, i % 3 == 0) for i in range(n)], 'map entry count', n, n))
+    return out
+
+
+_width_memo = {}
+
+
+def width_cases(thorough=False):
+    """Length cases, then count cases (memoised: the count cases are large)."""
+    if thorough not in _width_memo:
+        _width_memo[thorough] = width_length_cases() + width_count_cases(thorough)
+    return _width_memo[thorough]
+
+
 # ------------------------------------------------------------------------------- input-kind layer (C02)
 # Reference-domain grids for the values that are handed to the driver as each python input kind a
 # serializer accepts (datetime / date / str / int / float / wrapper objects ...).
